@@ -282,12 +282,12 @@ class Interp(EvalMixin):
 
             for n in ast.walk(fnode):
                 if isinstance(n, (ast.If, ast.While, ast.IfExp)):
-                    add(n.test, getattr(n, "end_lineno", n.lineno))
+                    add(n.test, _E(n))
                 elif isinstance(n, ast.comprehension):
                     for c in n.ifs:
-                        add(c, getattr(c, "end_lineno", 0))
+                        add(c, _E(c))
                 elif isinstance(n, ast.Assert):
-                    add(n.test, n.lineno)
+                    add(n.test, _L(n))
             self._test_idx[id(fnode)] = idx
         return idx
 
@@ -296,7 +296,7 @@ class Interp(EvalMixin):
         if fi is None:
             return
         raw = " ".join(ast.unparse(expr).split())
-        last = self._test_index(fi.node).get(raw, getattr(expr, "end_lineno", 0))
+        last = self._test_index(fi.node).get(raw, _E(expr))
         self._fact_last.setdefault(key, {})[id(fi.node)] = last
 
     def _live_index(self, fnode) -> dict:
@@ -311,7 +311,7 @@ class Interp(EvalMixin):
                         walk(c, True)
                         continue
                     if isinstance(c, ast.Name) and not isinstance(c.ctx, ast.Store):
-                        idx[c.id] = max(idx.get(c.id, 0), INF if nested else c.lineno)
+                        idx[c.id] = max(idx.get(c.id, 0), INF if nested else _L(c))
                     elif isinstance(c, ast.Name) and nested:
                         idx[c.id] = INF
                     walk(c, nested)
@@ -320,13 +320,13 @@ class Interp(EvalMixin):
             # names used inside loops stay live until the loop ends
             for n in ast.walk(fnode):
                 if isinstance(n, (ast.For, ast.While, ast.AsyncFor)):
-                    end = getattr(n, "end_lineno", n.lineno) + 1
+                    end = _E(n) + 1
                     for c in ast.walk(n):
                         if isinstance(c, ast.Name) and idx.get(c.id, 0) < end:
                             idx[c.id] = end
                 elif isinstance(n, ast.Try):
                     # a handler / finally may read anything read in its try statement
-                    end = getattr(n, "end_lineno", n.lineno) + 1
+                    end = _E(n) + 1
                     for part in n.handlers + n.finalbody:
                         for c in ast.walk(part):
                             if isinstance(c, ast.Name) and idx.get(c.id, 0) < end:
@@ -335,7 +335,7 @@ class Interp(EvalMixin):
         return idx
 
     def _expire_locals(self, states: list, stn: ast.stmt) -> None:
-        end = getattr(stn, "end_lineno", None)
+        end = _E(stn) or None
         if end is None or isinstance(stn, (ast.FunctionDef, ast.AsyncFunctionDef)):
             return
         for s in states:
@@ -353,7 +353,7 @@ class Interp(EvalMixin):
             self.gc(s, None, fr.get("__objs0__", frozenset(s.objs)))
 
     def _expire_facts(self, states: list, stn: ast.stmt) -> None:
-        end = getattr(stn, "end_lineno", None)
+        end = _E(stn) or None
         if end is None:
             return
         for s in states:
@@ -773,7 +773,7 @@ class Interp(EvalMixin):
             s.frames[s.cur]["__exc__"] = (o.exc.rstrip("?"), o.val)
             if o.exc.endswith("?"):
                 s.emit(ev("synthetic", self.site(s, h), exc=o.exc, handler=",".join(self._handler_names(h)) or "bare"))
-            self._expire_locals([s], _Line(h.lineno - 1))
+            self._expire_locals([s], _Line(_L(h) - 1))
             try:
                 k = (s.sig(), id(h))
                 hash(k)
@@ -869,14 +869,27 @@ class Interp(EvalMixin):
         if r is not None:
             if self.guards:
                 raw = " ".join(ast.unparse(test).split())
-                if raw in self.guards or any(g.startswith("*") and raw.endswith(g[1:]) for g in self.guards):
+                gm = self._guard_match(test, raw)
+                if gm is not None:
                     for s2, t in r:
-                        s2.emit(ev("guard", self.site(s2, test), text=raw, raw=raw, truth=t))
+                        s2.emit(ev("guard", self.site(s2, test), text=gm[0], raw=gm[0], truth=(not t) if gm[1] else t))
             return r
         out = []
         for s, v in self.eval(test, st, abrupt):
             out.extend(self._truth(test, v, s))
         return out
+
+    _FLIP = {ast.Is: ast.IsNot, ast.IsNot: ast.Is, ast.Eq: ast.NotEq, ast.NotEq: ast.Eq, ast.In: ast.NotIn, ast.NotIn: ast.In}
+
+    def _guard_match(self, expr: ast.expr, raw: str, key: str | None = None):
+        """(recorded text, flip) if this condition is one of the configured guards - in either polarity of a comparison"""
+        if raw in self.guards or (key is not None and key in self.guards) or any(g.startswith("*") and raw.endswith(g[1:]) for g in self.guards):
+            return raw, False
+        if isinstance(expr, ast.Compare) and len(expr.ops) == 1 and type(expr.ops[0]) in self._FLIP:
+            alt = " ".join(ast.unparse(ast.Compare(left=expr.left, ops=[self._FLIP[type(expr.ops[0])]()], comparators=expr.comparators)).split())
+            if alt in self.guards or any(g.startswith("*") and alt.endswith(g[1:]) for g in self.guards):
+                return alt, True
+        return None
 
     def _truth(self, expr: ast.expr, v, st: State) -> list[tuple[State, bool]]:
         t = self.truthiness(v, st)
@@ -884,9 +897,10 @@ class Interp(EvalMixin):
             return [(st, t)]
         key = self.canon(st, expr)
         raw = " ".join(ast.unparse(expr).split())
+        gm = self._guard_match(expr, raw, key) if self.guards else None
         if key in st.facts:
-            if raw in self.guards or key in self.guards:
-                st.emit(ev("guard", self.site(st, expr), text=key, raw=raw, truth=st.facts[key]))
+            if gm is not None:
+                st.emit(ev("guard", self.site(st, expr), text=key, raw=gm[0], truth=(not st.facts[key]) if gm[1] else st.facts[key]))
             return [(st, st.facts[key])]
         if raw in self.assume_true or key in self.assume_true:
             return [(st, True)]
@@ -895,9 +909,9 @@ class Interp(EvalMixin):
         s_true.facts[key] = True
         s_false.facts[key] = False
         self._note_fact(st, key, expr)
-        if raw in self.guards or key in self.guards or any(g.startswith("*") and raw.endswith(g[1:]) for g in self.guards):
-            s_true.emit(ev("guard", self.site(st, expr), text=key, raw=raw, truth=True))
-            s_false.emit(ev("guard", self.site(st, expr), text=key, raw=raw, truth=False))
+        if gm is not None:
+            s_true.emit(ev("guard", self.site(st, expr), text=key, raw=gm[0], truth=not gm[1]))
+            s_false.emit(ev("guard", self.site(st, expr), text=key, raw=gm[0], truth=gm[1]))
         self._refine_truth(expr, v, s_true, True)
         self._refine_truth(expr, v, s_false, False)
         return [(s_true, True), (s_false, False)]
@@ -1058,6 +1072,19 @@ _COMMIT_KINDS = {"txn_begin", "txn_commit", "auto", "store_stage", "update_workf
 class _Line:
     def __init__(self, end_lineno: int) -> None:
         self.end_lineno = end_lineno
+        self._endord = end_lineno
+
+
+def _L(n) -> int:
+    """order position of a node (canon.assign_order), falling back to the line number"""
+    return getattr(n, "_ord", None) or getattr(n, "lineno", 0)
+
+
+def _E(n) -> int:
+    v = getattr(n, "_endord", None)
+    if v:
+        return v
+    return getattr(n, "end_lineno", None) or _L(n)
 
 
 def _dedupe_abrupt(abrupt: list) -> list:
